@@ -36,8 +36,39 @@ def mods():
 # --------------------------------------------------------------------------
 # payloads
 
+def _safe_repr(obj):
+    try:
+        return repr(obj)
+    except Exception as exc:   # noqa
+        return '<unprintable: %s>' % type(exc).__name__
+
+
+class Grumpy:
+    '''A perfectly picklable payload that does not like to be printed (its
+    repr needs an attribute that is not part of its pickled state).'''
+    VERIF_COMPARE_WITH_EQ = True
+
+    def __init__(self, value):
+        self.value = value
+        self._label = 'grumpy'
+
+    def __getstate__(self):
+        return {'value': self.value}
+
+    def __repr__(self):
+        return '<%s %r>' % (self._label, self.value)
+
+    def __eq__(self, other):
+        return isinstance(other, Grumpy) and other.value == self.value
+
+    def __hash__(self):
+        return hash(self.value)
+
+
 def gen_value(rng, depth, size):
     import numpy as np
+    if rng.random() < 0.03:
+        return Grumpy(rng.randrange(1000))
     kind = rng.randrange(14 if depth > 0 else 9)
     if kind == 0:
         return rng.randrange(-10 ** 9, 10 ** 9)
@@ -505,7 +536,7 @@ def _judge_read(scn, res, opno, got, states, unreadable, written, root,
                       'entry-for-task-last-written-%s' % status,
                       {'op': opno, 'task': name, 'last_written': [version,
                                                                   status],
-                       'entry': repr(dict(got[name]))[:200]})
+                       'entry': _safe_repr(dict(got[name]))[:200]})
                 continue
             if status == 'DONE' and have and deep_diff(
                     dict(got[name]), gen_entry(tsk, version, status, root)):
@@ -531,7 +562,7 @@ def _judge_read(scn, res, opno, got, states, unreadable, written, root,
                 _viol(res, 'not-done-reported-done',
                       'entry-from-%s-%s-file' % (state[0], state[1]),
                       {'op': opno, 'task': name, 'disk': state[:2],
-                       'entry': repr(dict(got[name]))[:200]})
+                       'entry': _safe_repr(dict(got[name]))[:200]})
             continue
         if state[0] == 'intact' and tsk.get('elsewhere') and \
                 tsk['has_outdir'] and state[1][1] == 'DONE' and not have:
@@ -575,7 +606,7 @@ def _judge_read(scn, res, opno, got, states, unreadable, written, root,
             if not ok:
                 _viol(res, 'entry-differs', 'entry-never-written',
                       {'op': opno, 'task': name,
-                       'entry': repr(dict(got[name]))[:200]})
+                       'entry': _safe_repr(dict(got[name]))[:200]})
 
 
 def _whole_roundtrip(scn, sim, res, opno, op, root):
